@@ -154,6 +154,12 @@ func runC05(c *Ctx) {
 	// "parsing the same bytes twice yields equivalent graphs with identical identifiers": nothing a
 	// parser leaves behind may depend on Go's randomised map iteration order
 	mapOrderRule(c, c.reachDecls("map-order-independence", cdxUnser, spdxUnser))
+	// "parsing with auto-detection equals parsing with the format stated explicitly": the detector
+	// must report, for the declaration each readable format carries, exactly that format's key
+	if s := findSniffer(c, "writer-sniffer-agreement"); s != nil {
+		wr, rd := registryAgreement(c)
+		writerSnifferAgreement(c, s, wr, rd)
+	}
 }
 
 // counterRule: C05-D1 (seed) and D2.
